@@ -25,6 +25,10 @@ import (
 )
 
 func TestMain(m *testing.M) {
+	// (for the 'references' class below: names that expand to address parts in this process's environment)
+	for k, v := range map[string]string{"C15_HOST": "192.168.1.100", "C15_NET": "192.168.1", "C15_DOT": ".", "C15_PORT": "60001", "C15_ADDR": "192.168.1.100:60001", "C15_OCTET": "100"} {
+		os.Setenv(k, v)
+	}
 	ev.Describe("four roles (bind, broadcast, listen, controller) x (i) every string of length <=6 (quick) / <=7 (thorough) over the alphabet {0 1 2 5 . :}; (ii) the product of a token grammar: octet tokens {0,1,255,256,01}^4 x separator deviations x port suffix {absent, ':', ':0', ':1', ':59999', ':60000', ':60001', ':65535', ':65536', ':080', ':123456'} x prefix/suffix junk (a seeded tenth in quick, all in thorough); (iii) single-character insert/delete/replace mutations of valid addresses (rapid); (iv) all 2^16 ports on fixed addresses; (v) random IPv4 addresses and ports (rapid). Oracle: an independent strict parser that classifies each string as must-accept-with-value, must-reject (right form but the role's port rule is violated, or no dotted quad anywhere in the string) or don't-care (judged only for 'no panic'); String() of an accepted address parsed again must give the same address and port; Set and JSON must agree with Parse. Non-trivial = must-accept or must-reject; distinct = distinct (role, string).",
 		"strings that contain a dotted quad but are not of the exact form a.b.c.d[:port] (e.g. '::ffff:1.2.3.4', leading-zero ports like ':080', surrounding junk) are don't-care")
 	ev.Main(m, "C15")
@@ -483,6 +487,27 @@ func genIP(t *rapid.T) string {
 
 // other notations for an IPv4 endpoint that general-purpose parsers accept (IPv6 forms of an IPv4 address written in
 // hexadecimal, integers, short dotted forms, host names ...): none of them contains a dotted quad, all must be rejected
+// genReference: a valid address in which a part is written as a REFERENCE or an ESCAPE that some other notation would
+// resolve - URL percent-encoding, shell / Windows environment references (the names are set in this process), HTML and
+// Unicode escapes, backslashes. None of these strings contains a dotted quad as written: a parser has no business resolving them.
+func genReference(t *rapid.T) string {
+	a, b, c, d := rapid.IntRange(1, 255).Draw(t, "a"), rapid.IntRange(0, 255).Draw(t, "b"), rapid.IntRange(0, 255).Draw(t, "c"), rapid.IntRange(1, 254).Draw(t, "d")
+	plain := fmt.Sprintf("%d.%d.%d.%d", a, b, c, d)
+	port := rapid.SampledFrom([]string{"", ":60001", ":12345", ":1"}).Draw(t, "port")
+	pct := func(s string, what byte) string {
+		return strings.ReplaceAll(s, string(what), fmt.Sprintf("%%%02X", what))
+	}
+	forms := []string{
+		pct(plain, '.') + port, strings.ToLower(pct(plain, '.')) + port, plain[:len(plain)-1] + fmt.Sprintf("%%%02x", plain[len(plain)-1]) + port, pct(plain+port, ':'),
+		fmt.Sprintf("%%%02x", plain[0]) + plain[1:] + port, pct(pct(plain, '.'), '%') + port,
+		"$C15_HOST" + port, "${C15_HOST}" + port, "${C15_NET}.100" + port, "192.168.1${C15_DOT}100" + port, "$C15_ADDR", "%C15_HOST%" + port, "192.168.1.$C15_OCTET" + port, "192.168.1.100:$C15_PORT", "192.168.1.100:${C15_PORT}",
+		"$(echo 192.168.1.100)" + port, "`hostname -i`" + port, "~" + port, "{{host}}" + port,
+		strings.ReplaceAll(plain, ".", "&#46;") + port, strings.ReplaceAll(plain, ".", "&period;") + port, strings.ReplaceAll(plain, ".", "\\u002e") + port, strings.ReplaceAll(plain, ".", "\\.") + port,
+		strings.ReplaceAll(plain, ".", "\\x2e") + port, strings.ReplaceAll(plain, ".", "%u002E") + port, strings.ReplaceAll(plain, ".", "=2E") + port, strings.ReplaceAll(plain, ".", "+") + port,
+	}
+	return forms[rapid.IntRange(0, len(forms)-1).Draw(t, "form")]
+}
+
 func genOtherNotation(t *rapid.T) string {
 	a, b, c, d := rapid.IntRange(0, 255).Draw(t, "a"), rapid.IntRange(0, 255).Draw(t, "b"), rapid.IntRange(0, 255).Draw(t, "c"), rapid.IntRange(0, 255).Draw(t, "d")
 	v := uint32(a)<<24 | uint32(b)<<16 | uint32(c)<<8 | uint32(d)
@@ -517,6 +542,9 @@ func genCase(t *rapid.T) aCase {
 	role := rapid.SampledFrom(roles).Draw(t, "role")
 	if rapid.IntRange(0, 7).Draw(t, "other.notation") == 0 {
 		return aCase{Role: role, S: genOtherNotation(t)}
+	}
+	if rapid.IntRange(0, 11).Draw(t, "reference") == 0 {
+		return aCase{Role: role, S: genReference(t)}
 	}
 	if rapid.IntRange(0, 15).Draw(t, "text") == 0 {
 		// text that is no address at all, of every length and script (host names, labels, what a user types into the wrong field),
